@@ -248,6 +248,13 @@ Example ex_measure :
   measure nat nat nat (run nat nat nat ex_exec (fun j => j) ex_facts_now ex_sched (init nat nat nat (number nat [3; 0; 5]) 2)) = 0.
 Proof. vm_compute. auto. Qed.
 
+(* the defects found by this check are repaired on the current tree (fix commits): hard obligations *)
+Lemma now_worker_reports_failures : JobQueueGen.worker_reports_failures = true.
+Proof. reflexivity. Qed.
+Lemma now_non_list_config_reported : JobQueueGen.non_list_config_rejected_silently = false.
+Proof. reflexivity. Qed.
+Lemma now_falsy_payload_kept : JobQueueGen.falsy_payload_replaced = false.
+Proof. reflexivity. Qed.
 Print Assumptions C15_no_loss.
 Print Assumptions C15_future_own_result.
 Print Assumptions C15_future_own_error.
